@@ -102,7 +102,7 @@ type expObs struct {
 var cwdPrefix string // set when the child has chdir'ed: "<scratch>"
 
 func usesCwdRoot(entry string) bool {
-	return strings.HasPrefix(entry, "ExpandSchema:") || strings.HasSuffix(entry, "WithRoot")
+	return strings.HasPrefix(entry, "ExpandSchema:") || strings.HasSuffix(entry, "WithRoot") || strings.HasSuffix(entry, ":nobase")
 }
 
 func rootLoc(entry string) (prefix, file string) {
@@ -450,6 +450,19 @@ func concretise(c *expCase) (*concrete, error) {
 	return cc, nil
 }
 
+func flipCase(s string) string {
+	b := []rune(s)
+	for i, r := range b {
+		switch {
+		case r >= 'a' && r <= 'z':
+			b[i] = r - 32
+		case r >= 'A' && r <= 'Z':
+			b[i] = r + 32
+		}
+	}
+	return string(b)
+}
+
 func idFor(class string, i int) string {
 	switch class {
 	case "abs":
@@ -464,7 +477,7 @@ func idFor(class string, i int) string {
 	return class
 }
 
-var faultClasses = []string{"noptr", "nodoc", "string", "number", "bool", "array"}
+var faultClasses = []string{"noptr", "nodoc", "string", "number", "bool", "array", "casevar"}
 
 // oddTargets (-oddtargets): targets that exist but are not objects of the expected kind in a way
 // the error discipline (C08) says nothing about: JSON null, an empty object
@@ -485,6 +498,19 @@ func danglingRef(cc *concrete, c *expCase, i int) string {
 		return "missing" + strconv.Itoa(i) + ".json#/" + sec + "/X"
 	case "string", "number", "bool", "array", "null", "emptyobj":
 		return "#/x-bad-" + fault
+	case "casevar":
+		// the name of the top-level element this ref lives in, with the case of its letters flipped
+		top := i
+		for c.Nodes[top-1].Owner != 0 {
+			top = c.Nodes[top-1].Owner
+		}
+		if c.Nodes[top-1].Kind == a.Kind && c.Nodes[top-1].Doc == a.Doc {
+			toks := append([]string{}, cc.paths[top]...)
+			toks[len(toks)-1] = flipCase(toks[len(toks)-1])
+			if toks[len(toks)-1] != cc.paths[top][len(toks)-1] {
+				return fragFor(toks)
+			}
+		}
 	}
 	return "#/" + sec + "/Missing" + strconv.Itoa(i)
 }
@@ -596,6 +622,7 @@ var expFlags struct {
 	caches     string
 	ids        string
 	oddTargets bool
+	allFaults  bool
 }
 
 func init() {
@@ -610,6 +637,7 @@ func init() {
 			fs.StringVar(&expFlags.entry, "entry", "ExpandSpec", "entry point")
 			fs.StringVar(&expFlags.failsets, "failsets", "none", "comma list of sets (a+b) of documents the loader refuses")
 			fs.StringVar(&expFlags.caches, "caches", "none", "comma list of cache modes: none,fresh,reuse,preload:0+1")
+			fs.BoolVar(&expFlags.allFaults, "allfaults", false, "graphs with exactly one dangling ref are run once per fault class")
 			fs.BoolVar(&expFlags.oddTargets, "oddtargets", false, "dangling refs point at JSON null / an empty object instead (C04 only)")
 			fs.StringVar(&expFlags.ids, "ids", "", "comma list of id classes given (in rotation) to the structured schemas: abs,relfile,reldir,frag")
 		},
@@ -693,7 +721,41 @@ func withIDs(nodes []absNode, rot int) []absNode {
 	return out
 }
 
-func cross(id int, nodes []absNode) []*expCase {
+// faultVariants: with -allfaults a graph with exactly one dangling ref yields one graph per fault class
+func faultVariants(nodes []absNode) [][]absNode {
+	if !expFlags.allFaults || expFlags.oddTargets {
+		return [][]absNode{nodes}
+	}
+	idx := -1
+	for i, a := range nodes {
+		if a.T == "ref" && a.To == 0 {
+			if idx >= 0 {
+				return [][]absNode{nodes}
+			}
+			idx = i
+		}
+	}
+	if idx < 0 {
+		return [][]absNode{nodes}
+	}
+	var out [][]absNode
+	for _, f := range faultClasses {
+		v := append([]absNode(nil), nodes...)
+		v[idx].Fault = f
+		out = append(out, v)
+	}
+	return out
+}
+
+func cross(id int, nodes0 []absNode) []*expCase {
+	var out []*expCase
+	for _, nodes := range faultVariants(nodes0) {
+		out = append(out, cross1(id, nodes)...)
+	}
+	return out
+}
+
+func cross1(id int, nodes []absNode) []*expCase {
 	var out []*expCase
 	for _, lay := range strings.Split(expFlags.layouts, ",") {
 		for _, o := range strings.Split(expFlags.opts, ",") {
